@@ -377,6 +377,24 @@ fn format_non_link_file_type(file_type: FileType) -> char {
     }
 }
 
+/// Splits a path, as spelled, at its last component: trailing slashes are
+/// ignored, "." and ".." count as components ("d/." is "d" and "."), and a
+/// path made of slashes only is "/" with an empty directory part.
+fn split_last_component(path: &str) -> (Option<&str>, &str) {
+    let trimmed = path.trim_end_matches('/');
+    if trimmed.is_empty() {
+        return if path.is_empty() {
+            (None, path)
+        } else {
+            (Some(""), "/")
+        };
+    }
+    match trimmed.rfind('/') {
+        Some(i) => (Some(&trimmed[..i]), &trimmed[i + 1..]),
+        None => (None, trimmed),
+    }
+}
+
 fn format_directive<'entry>(
     file_info: &'entry WalkEntry,
     directive: &FormatDirective,
@@ -392,7 +410,10 @@ fn format_directive<'entry>(
     let res: Cow<'entry, str> = match directive {
         FormatDirective::AccessTime(tf) => tf.apply(meta()?.accessed()?)?,
 
-        FormatDirective::Basename => file_info.file_name().to_string_lossy(),
+        FormatDirective::Basename => split_last_component(&file_info.path().to_string_lossy())
+            .1
+            .to_owned()
+            .into(),
 
         FormatDirective::Blocks { large_blocks } => {
             #[cfg(unix)]
@@ -435,18 +456,16 @@ fn format_directive<'entry>(
         #[cfg(unix)]
         FormatDirective::Device => meta()?.dev().to_string().into(),
 
-        // GNU find's behavior for this is a bit...odd:
-        // - Both the root directory and the paths immediately underneath return an empty string
-        // - Any path without any slashes (i.e. relative to cwd) returns "."
-        // - "." also returns "."
-        // - ".." returns "." (???)
-        // These are all (thankfully) documented on the find(1) man page.
-        FormatDirective::Dirname => match file_info.path().parent() {
-            None => "".into(),
-            Some(p) if p == Path::new("/") => "".into(),
-            Some(p) if p == Path::new("") => ".".into(),
-            Some(parent) => parent.to_string_lossy(),
-        },
+        // The part before the last component, as spelled ("d/." for "d/./x"):
+        // - the root directory and the paths immediately underneath give an empty string
+        // - a path without a directory part ("x", ".", "..", "x/") gives "."
+        // These are documented on the find(1) man page.
+        FormatDirective::Dirname => {
+            match split_last_component(&file_info.path().to_string_lossy()).0 {
+                None => ".".into(),
+                Some(dir) => dir.to_owned().into(),
+            }
+        }
 
         #[cfg(not(unix))]
         FormatDirective::Filesystem => "".into(),
